@@ -848,7 +848,7 @@ func TestCheck(t *testing.T) {
 	defer r.Finish()
 	r.Rule("cases = mutated copies of config.dist.yaml run by the real binary: every single-field mutation of every numeric / duration / size / enum / " +
 		"cross-referenced-id scalar to {0, -1, 1, documented bound, bound+1, large, type maximum (durations), removed, other enum values / ids, bogus}, " +
-		"plus every value combination of the documented cross-field constraints (cache type/sizes, stop/resume, KV type/TTL, DDR ports) and seeded random pairs (and triples in the thorough tier) within one section, two thirds of their values drawn from those accepted alone; class key = the list of (yaml path = value class); " +
+		"every mapping/sequence node at depth 1 and 2 removed or written as null, plus every value combination of the documented cross-field constraints (cache type/sizes, stop/resume, KV type/TTL, DDR ports) and seeded random pairs (and triples in the thorough tier) within one section, two thirds of their values drawn from those accepted alone; class key = the list of (yaml path = value class); " +
 		"non-trivial = the child reached a decisive observation: rejected with its message examined, or accepted and at least one query answered")
 	r.Assume("a YAML type error that gives the line number of the mutated property counts as naming it")
 	r.Assume("a duration of 1ns / a size of 1B is a legal positive value: a start-up operation that reports hitting that limit, and queries that time out under a 1ns duration, are the configured behaviour, not violations (panics and crashes still are)")
@@ -893,6 +893,8 @@ func TestCheck(t *testing.T) {
 		return
 	}
 	fields, skipped := catalogue(h.baseLoc.Tree)
+	sectionFs := sectionFields(h.baseLoc.Tree)
+	r.Bucket("sections_removed_or_nulled", int64(len(sectionFs)))
 	r.Extra("numeric_scalars_not_mutated", skipped)
 	r.Bucket("fields", int64(len(fields)))
 	sections := map[string]bool{}
@@ -962,7 +964,7 @@ func TestCheck(t *testing.T) {
 		}
 	}
 	if only != "" {
-		ms, perr := parseOnly(only, fields)
+		ms, perr := parseOnly(only, append(append([]field(nil), fields...), sectionFs...))
 		if perr != nil {
 			r.Inconclusive(perr.Error())
 			return
@@ -977,11 +979,16 @@ func TestCheck(t *testing.T) {
 		return
 	}
 
-	// Tier 1: every single-field mutation.
+	// Tier 1: every single-field mutation, and every missing / null section.
 	var singles []caseSpec
 	for _, f := range fields {
 		for _, v := range f.Values {
 			singles = append(singles, caseSpec{Stream: "single", Idx: len(singles), Muts: []mutation{{Path: f.Path, Kind: f.Kind, Value: v}}})
+		}
+	}
+	for _, f := range sectionFs {
+		for _, v := range f.Values {
+			singles = append(singles, caseSpec{Stream: "section", Idx: len(singles), Muts: []mutation{{Path: f.Path, Kind: f.Kind, Value: v}}})
 		}
 	}
 	if lim := atoiDefault(os.Getenv("C20_LIMIT"), 0); lim > 0 && lim < len(singles) {
@@ -1065,6 +1072,7 @@ func TestCheck(t *testing.T) {
 	r.Extra("upstream_queries_seen_by_stub", fx.upstreamQueries.Load())
 	r.Require("base_ok", 1)
 	r.Require("fields", 40)
+	r.Require("sections_removed_or_nulled", 20)
 	r.Require("sections_with_mutated_fields", 10)
 	r.Require("accepted", 80)
 	r.Require("rejected", 80)
